@@ -59,7 +59,7 @@ def base_type(ty):
     return ty
 
 
-def int_digits(v, bits, signed, ctx, minw=0):
+def int_digits(v, bits, signed, ctx, minw=0, plus=False):
     """-> (negative: bool, digits: list of byte terms) ; forks on sign and on the number of digits"""
     if isinstance(v, bool): v = int(v)
     if isinstance(v, int):
@@ -75,6 +75,7 @@ def int_digits(v, bits, signed, ctx, minw=0):
         neg = ctx.branch(v < 0)
         mag = ZeroExt(8, v) if not neg else -SignExt(8, v)
     w += 8
+    if minw and (neg or plus): minw -= 1          # the sign counts towards the width
     maxd = len(str((1 << bits) - 1))
     nd = maxd
     # with zero padding to `minw` digits every value below 10^minw renders with exactly minw digits: no fork on the digit count there
@@ -123,10 +124,8 @@ def display(arg, opts, ctx, out):
     if m and arg.kind == "display":
         bits = 64 if m.group(2) == "size" else int(m.group(2))
         zw = opts["width"] if (opts["flags"] & WIDTH_FLAG and opts["flags"] & ZERO_PAD) else 0
-        neg, digs = int_digits(v, bits, m.group(1) == "i", ctx, zw)
+        neg, digs = int_digits(v, bits, m.group(1) == "i", ctx, zw, bool(opts["flags"] & SIGN_PLUS))
         sign = [0x2D] if neg else ([0x2B] if opts["flags"] & SIGN_PLUS else [])
-        if zw and len(sign) and len(digs) == zw and not isinstance(v, int):
-            raise core.NotEncodable("signed zero-padded rendering with a sign (width counts the sign)")
         out.extend(pad(digs, sign, opts, True)); return
     if isinstance(v, core.Str) and arg.kind == "display":
         body = list(v.b)
@@ -227,6 +226,8 @@ def contracts(c, args, ctx):
         out = []
         display(FmtArg("display", ty, args[0]), default_opts(), ctx, out)
         return core.Str(out)
+    if re.fullmatch(r"<String as (std::fmt::|core::fmt::)?Write>::write_fmt", c):
+        d(args[0]).b.extend(render(args[1], ctx)); return core.Enum("Ok", [None])
     if re.search(r"as (std::io::)?Write>::write_fmt$", c):
         tgt = d(args[0])
         if isinstance(tgt, core.Str):
